@@ -5,7 +5,7 @@ namespace Pb.Drv.C16
 open Pb.Proto Pb.Crop Pb.Contract
 
 def qk? : String → Option QKind
-  | "pos" => some .pos | "zero" => some .zero | "neg" => some .neg
+  | "pos" => some .pos | "zero" => some .zero | "neg" => some .neg | "nan" => some .nan
   | "nonScalar" => some .nonScalar | "wrongUnit" => some .wrongUnit | "notQuantity" => some .notQuantity
   | _ => none
 
